@@ -18,6 +18,7 @@ from collections import Counter
 from simkit import core, env
 from checks.c13_model import (Model, Violation, Discard, check_primary, rebuild, resync, stereo_of,
                               observe, OBSERVERS, OBS_INDEX, GRAPH_ONLY)
+from checks.c13_rx import RxMixin, gen_rx_op, RX_NORMALISERS
 
 PROP = 'C13'
 MAXH = 4
@@ -126,10 +127,11 @@ def _isotopes(sym):
     return sorted(_element_class(sym)().isotopes_distribution)
 
 
-class Sim:
+class Sim(RxMixin):
     def __init__(self, config, probes=None):
         self.cfg = config
         self.handles = []
+        self.rxs = []          # reactions built from copies of arena molecules (checks/c13_rx.py)
         self.probes = probes if probes is not None else Counter()
         self.steps = 0
         self.sig = []          # distinctness signature
@@ -272,11 +274,23 @@ class Sim:
         if res is None:
             self.sig.append((kind, 'skip'))
             return
+        if res[0] == 'rx':
+            self.sig.append((kind, op.get('name') if kind == 'rx_norm' else None, (op.get('edit') or {}).get('op')))
+            self.check_rxs(res[1], op.get('c', 0), where=kind)
+            return
         acting, touched = res
         self.sig.append((kind, pre_sig, op.get('mode') or op.get('kind')))
         if kind in MUTATORS:
             self.mut_then_obs = True
         self.check_all(acting, touched, op.get('c', 0), where=kind)
+        if self.rxs:
+            # reactions were built from copies: nothing done to an arena molecule may show in them
+            rrng = random.Random(op.get('c', 0) ^ 0x77)
+            for ri in range(len(self.rxs)):
+                try:
+                    self.check_rx(ri, rrng, where=kind)
+                except Violation as v:
+                    raise Violation(f'cross-reaction-interference:{v.cls}', f'reaction {ri} after {kind} on a molecule: {v.detail}')
 
     # ------------------------------------------------------------------ births
     def op_new(self, op):
@@ -1040,6 +1054,11 @@ def draw_config(rng, tier):
         cfg['obs_limit'] = 12          # bigger molecules: sample the observers
         cfg['max_atoms'] = 44
         cfg['max_handles'] = min(cfg['max_handles'], 2)
+    cfg['rx'] = rng.random() < 0.12 or bool(os.environ.get('VERIF_C13_RX'))
+    if cfg['rx']:
+        cfg['n_steps'] = max(cfg['n_steps'], 5)
+        cfg['obs_limit'] = cfg['obs_limit'] or 25
+        cfg['rx_member_obs'] = rng.choice([6, 10, 16])
     w = dict(BASE_W)
     for k in list(w):
         r = rng.random()
@@ -1108,6 +1127,22 @@ def gen_op(sim, rng, frng, cfg):
     if not sim.handles:
         return {'op': 'new', 'seed': rng.randrange(len(SEEDS))}
     w = cfg['weights']
+    if cfg.get('rx') and rng.random() < 0.65:
+        def edit(model):
+            r = rng.random()
+            if r < 0.25:
+                return dict(gen_add_atom(rng), c=0)
+            if r < 0.5:
+                return dict(gen_add_bond(rng, model), c=0)
+            if r < 0.6:
+                return {'op': 'del_atom', 'a': _rank(rng)}
+            if r < 0.7:
+                return {'op': 'del_bond', 'a': _rank(rng), 'bi': rng.randrange(4)}
+            e = {'op': 'tx', 'body': [gen_inner(sim, rng, model) for _ in range(rng.choice([1, 2, 3]))]}
+            if frng.random() < 0.4:
+                e['fault'] = {'kind': 'user', 'after': frng.randrange(len(e['body']) + 1)}
+            return e
+        return gen_rx_op(sim, rng, frng, cfg, edit)
     kind = rng.choices(KINDS, [w[k] for k in KINDS])[0]
     if cfg.get('aromatic'):
         kind = rng.choice(AROMATIC_KINDS)
@@ -1420,6 +1455,10 @@ def op_kinds(trace):
             kinds.append('opaque:' + OPAQUE[op.get('name', 0) % len(OPAQUE)])
         elif k == 'invalid':
             kinds.append('invalid:%d' % (op.get('kind', 0) % INVALID_KINDS))
+        elif k == 'rx_norm':
+            kinds.append('rx_norm:' + RX_NORMALISERS[op.get('name', 0) % len(RX_NORMALISERS)][0])
+        elif k == 'rx_edit':
+            kinds.append('rx_edit:' + op['edit']['op'])
         else:
             kinds.append(k)
     return kinds
